@@ -93,7 +93,11 @@ pub fn build_from_c(name: &str, c_code: &str, spec: &LangSpec, _opt: OptLevel) -
             "tsan" => { cmd.arg("-fsanitize=thread"); }
             _ => {}
         }
-        let out = cmd.output().map_err(|e| BuildError::Compile(format!("spawn clang: {}", e)))?;
+        // the C compiler is not the subject: its run time (minutes on a loaded machine) must not count as a hang of the case
+        crate::run::compiler_phase(true);
+        let out = cmd.output();
+        crate::run::compiler_phase(false);
+        let out = out.map_err(|e| BuildError::Compile(format!("spawn clang: {}", e)))?;
         let _ = std::fs::remove_file(&cfile);
         if let Some(p) = scfile { let _ = std::fs::remove_file(p); }
         if !out.status.success() {
